@@ -256,18 +256,40 @@ def beyond_end_rule(f, P, rep, rid):
     n = 0
     polls = first_effect_blocks(b)
 
-    def leaf_defs(l, depth=0, seen=None):
-        """(has_zero_def, [non-zero leaf definitions]) following plain moves."""
+    def leaf_defs(l, depth=0, seen=None, field=None):
+        """(has_zero_def, [non-zero leaf definitions]) following plain moves (through the fields of tuples built
+        and taken apart on the way)."""
         if seen is None:
             seen = set()
-        if l in seen or depth > 8:
+        if (l, field) in seen or depth > 10:
             return False, []
-        seen.add(l)
+        seen.add((l, field))
         zero = False
         leaves = []
         for d in defs.get(l, []):
             if d[0] == 'st':
                 rv = b.blocks[d[1]]['st'][d[2]]['rv']
+                pl_ = b.blocks[d[1]]['st'][d[2]]['pl']
+                if field is not None and not pl_['p'] and rv['k'] == 'agg' and rv.get('ak') == 'tuple' and field < len(rv['ops']):
+                    o = rv['ops'][field]
+                    if o['k'] == 'const':
+                        if o.get('v') == '0':
+                            zero = True
+                        else:
+                            leaves.append(d)
+                        continue
+                    if o['k'] in ('copy', 'move') and not o['pl']['p']:
+                        z2, l2 = leaf_defs(o['pl']['l'], depth + 1, seen, None)
+                        zero = zero or z2
+                        leaves += l2
+                        continue
+                    leaves.append(d)
+                    continue
+                if field is not None and pl_['p']:
+                    # a field of the tuple assigned on its own
+                    fs = [e for e in pl_['p'] if e['k'] == 'field']
+                    if len(fs) != 1 or fs[0].get('i', fs[0].get('n')) not in (field, str(field)):
+                        continue
                 if rv['k'] == 'use' and rv['ops'][0]['k'] == 'const':
                     if rv['ops'][0].get('v') == '0':
                         zero = True
@@ -275,8 +297,14 @@ def beyond_end_rule(f, P, rep, rid):
                 if rv['k'] == 'use' and rv['ops'][0]['k'] in ('copy', 'move') and \
                         not [e for e in rv['ops'][0]['pl']['p'] if e['k'] != 'field']:
                     src = rv['ops'][0]['pl']['l']
+                    fsel = [e for e in rv['ops'][0]['pl']['p'] if e['k'] == 'field']
                     if b.ty(src)['k'] == 'tuple' or not rv['ops'][0]['pl']['p']:
-                        z2, l2 = leaf_defs(src, depth + 1, seen)
+                        fi = None
+                        if b.ty(src)['k'] == 'tuple' and len(fsel) == 1:
+                            fi = fsel[0].get('i')
+                            if fi is None and str(fsel[0].get('n', '')).isdigit():
+                                fi = int(fsel[0]['n'])
+                        z2, l2 = leaf_defs(src, depth + 1, seen, fi if fi is not None else field)
                         zero = zero or z2
                         leaves += l2
                         continue
